@@ -378,27 +378,45 @@ BLACKLIST_REGISTRIES = ["BLACKLISTED_SPECS", "_FILE_FILTERS", "_COMMAND_FILTERS"
 FILTER_REGISTRIES = ["FILTERS", "_CACHE"]
 
 
+_CONTAINERS = (dict, set, list)
+
+
 def _copy(v, depth=0):
-    if depth < 3:
-        if isinstance(v, dict):
-            return dict((k, _copy(x, depth + 1)) for k, x in v.items())
-        if isinstance(v, set):
-            return set(v)
-        if isinstance(v, list):
-            return list(v)
+    """copy of a registry: containers are copied down to three levels, everything else is shared"""
+    if isinstance(v, dict):
+        if depth >= 2:
+            return dict(v)
+        return dict((k, _copy(x, depth + 1) if isinstance(x, _CONTAINERS) else x) for k, x in v.items())
+    if isinstance(v, set):
+        return set(v)
+    if isinstance(v, list):
+        return list(v)
     return v
 
 
+_MISSING = object()
+
+
 def _restore(cur, snap):
+    """make `cur` equal to `snap` again, in place (inner containers may be aliased elsewhere, e.g.
+    dr.DEPENDENCIES[c] is delegate.dependencies); unchanged entries are not touched"""
     if isinstance(cur, dict):
-        for k in list(cur.keys()):
-            if k not in snap:
+        if len(cur) != len(snap) or cur.keys() != snap.keys():
+            for k in [k for k in cur.keys() if k not in snap]:
                 del cur[k]
+        get = dict.get          # (never triggers a defaultdict factory)
         for k, v in snap.items():
-            if k in cur and any(isinstance(v, t) and isinstance(cur[k], t) for t in (dict, set, list)):
-                _restore(cur[k], v)     # in place: the inner set may be aliased (delegate.dependencies)
-            else:
+            c = get(cur, k, _MISSING)
+            if c is v:
+                continue
+            if isinstance(v, _CONTAINERS):
+                if c is not _MISSING and type(c) is type(v) or (isinstance(v, dict) and isinstance(c, dict)):
+                    if c != v:
+                        _restore(c, v)
+                    continue
                 cur[k] = _copy(v, 1)
+            elif c is _MISSING or c != v:
+                cur[k] = v
     elif isinstance(cur, set):
         cur.clear()
         cur.update(snap)
